@@ -60,7 +60,8 @@ CHECKS["C19"] = dict(
     category="exploration",
     technique="TLA+ decision table + handshake machine (AstraTLS.tla), TLC-exported rows replayed with freshly minted x509 chains against the real "
               "resolver / endpoints / proxycore.Connect",
-    text="For every abstract server chain (5 signers x extra cert x 3 SANs x 3 validities + empty) x {metadata, contact-point node, peers node} x "
+    text="For every abstract server chain (5 signers x extra cert x 3 SANs x 5 validities, two of them time-shifted: valid when the endpoint was made and "
+         "expired at the handshake, and the reverse; + empty) x {metadata, contact-point node, peers node} x "
          "{DNS, IP bundle host} x {TLS1.2, 1.3} the real code accepts exactly the chains that verify against the bundle CA for the bundle host now; "
          "rejected servers complete no handshake, see no client certificate and receive zero application bytes; accepted servers see the bundle's "
          "client certificate and the contact point / host id as SNI.",
@@ -123,12 +124,13 @@ CHECKS["C13"] = dict(
 CHECKS["C18"] = dict(
     category="exploration",
     technique="lock-discipline invariants of Session.tla / Request.tla checked by TLC; the specification-driven concurrent scenario families (request "
-              "lifecycle with drops and re-prepares, USE histories, gated hazard schedules) executed against the real proxy under the Go race detector",
-    text="Every scenario family of C01/C02/C07/C08 is executed with the proxy in-process in a -race build; any detector report whose two stacks are in "
+              "lifecycle with drops and re-prepares, USE histories, event fan-out, membership-changing fault sequences of Topology.tla under request load, "
+              "gated hazard schedules) executed against the real proxy under the Go race detector",
+    text="Every scenario family of C01/C02/C07/C08/C14/C16 is executed with the proxy in-process in a -race build; any detector report whose two stacks are in "
          "github.com/datastax/cql-proxy, and any 'concurrent map' abort, is a violation keyed by the pair of access sites. The TLA+ models contribute the lock "
          "discipline of the design (TableWriteExclusive, MutexOK) and the schedules; the memory-model verdict is the detector's.",
     note="A TLA+ model cannot observe Go's memory model: this check is only partially inside the technique (DESIGN §7). The detector reports only races that "
-         "the executed schedules exhibit. Event fan-out (C14) and topology (C16) families are added when those drivers exist.",
+         "the executed schedules exhibit. All scenarios but the gated ones run with the hook sink off (its mutex would order the proxy's goroutines).",
     design="§6 C18, §7")
 
 CHECKS["C10"] = dict(
@@ -159,9 +161,11 @@ CHECKS["C14"] = dict(
     design="§6 C14")
 CHECKS["C16"] = dict(
     category="model_checking",
-    technique="TLA+ specs Topology.tla (fault-sequence enumeration with expected converged state) and Backoff.tla (delay table with bounds) checked and "
-              "exported by TLC; every fault sequence applied to the real proxy and compared after each fault (spec->code replay); delays observed at "
-              "verif hooks and table rows replayed into NewReconnectPolicyWithDelays",
+    technique="TLA+ specs Topology.tla (the select loop of Cluster.stayConnected - event debouncing, refresh timer, refresh, fail-over - against an "
+              "environment of faults; QuiescentConverged, Settles) and Backoff.tla (delay table with bounds) checked and exported by TLC; fault sequences "
+              "applied to the real proxy with the timing of the exported proxy state (settled / inside the refresh window / control connection just lost) "
+              "and compared after each settled fault (spec->code replay); the sequences that a model with a hazard switch fails on are replayed first; "
+              "delays observed at verif hooks and table rows replayed into NewReconnectPolicyWithDelays",
     text="For every fault sequence (node add / remove / unlist / stop / start / restart, pooled / control / all connections dropped, heartbeat silence; "
          "<=4 hosts, <=4 faults; quick tier a seeded sample) the real proxy converges after every fault to routing exactly the nodes that are listed and "
          "up, re-establishes the control connection (failing over to another host) and reports zero outage; with every node down the outage grows and it "
@@ -195,12 +199,13 @@ CHECKS["C17"] = dict(
     technique="TLA+ spec Hostile.tla (classes of hostile client/backend behaviour, allowed offender outcomes, ProcessAlive) enumerated by TLC; sequences "
               "replayed against the real proxy binary with liveness and canary checks",
     text="every abstract class of hostile client input (truncated/oversized/zero declared lengths, garbage, response direction, wrong/unknown opcodes and "
-         "versions, compression flag abuse, malformed string/map/batch lengths, hostile USE / PREPARE keyspace / query text / REGISTER / STARTUP / "
+         "versions, compression flag abuse, malformed string/map/batch lengths, boundary values in every length / count field of QUERY, PREPARE, EXECUTE, BATCH, REGISTER, STARTUP and "
+         "AUTH_RESPONSE bodies, hostile USE / PREPARE keyspace / query text / REGISTER / STARTUP / "
          "AUTH_RESPONSE contents) and hostile backend reply (unknown stream, wrong opcode, short error, garbage, unsolicited event, truncated result, "
          "bogus UNPREPARED, compression flag) is sent - every listed variant at least once, in sequences covering all classes (thorough: all ordered "
          "pairs) - to the real binary under several --max-protocol-version settings; the process stays alive, the offender sees an allowed outcome, and a "
          "canary client gets a locally answered and a forwarded query right after every event",
-    note="abstract classes with listed variants and seeded contents, not coverage-guided fuzzing (DESIGN §7); declared lengths up to 15 MiB; canary retries "
+    note="abstract classes with listed variants and seeded contents, not coverage-guided fuzzing (DESIGN §7); declared frame lengths up to 15 MiB, declared field lengths up to 2^31-1; canary retries "
          "for 8 s because a backend connection torn down by garbage returns only after the reconnect delay.",
     design="§6 C17, §7")
 
